@@ -9,6 +9,10 @@
     Variant (c): SERIES of such behaviours through one queue over one downstream that keeps state between
     messages (the connection pool of the real remote-MX target; a scripted target with all messages in the
     spool at once) - every message of a series is its own trace for QueueTrace.tla (build_series).
+    Variant (d): the unclassified failure of the body stage of a behaviour realised at every point between "354" and
+    the final dot on the CLIENT's side of the real remote-MX / target.smtp / target.lmtp code (spooled body cannot be
+    opened / read fails at once, in the middle, at the end / peer resets in mid-transfer / the client's socket fails):
+    harness/queuecheck/bodyfault_test.go, build_bodyfault.
 """
 import json
 import os
@@ -210,7 +214,7 @@ def run(ctx, replay):
     if replay and "repotest" in json.load(open(replay)):
         repo_test_traces(ctx, "C01", lambda v: v not in REPORT_PREDS)
         return
-    run_queue(ctx, replay, "C01", lambda v: v not in REPORT_PREDS, DIMS_C01, {"real": True, "series": True})
+    run_queue(ctx, replay, "C01", lambda v: v not in REPORT_PREDS, DIMS_C01, {"real": True, "series": True, "bodyfault": True})
     if not replay:
         n = repo_test_traces(ctx, "C01", lambda v: v not in REPORT_PREDS)
         ctx.cov["traces_validated_against_impl"] += n
@@ -330,6 +334,78 @@ def build_series(ctx, pool, thorough):
     return out
 
 
+BODY_FAULTS = ["open", "read0", "readmid", "readend", "reset", "wr0", "wrmid"]     # wr*: the remote-MX target only (its dialer)
+
+
+def body_unspec(h):
+    """the environment choice 'the body stage failed without a classification for every accepted recipient'"""
+    if h["a"] == "TBody":
+        return h.get("res") == "unspec"
+    if h["a"] == "TBodyNA":
+        st = list((h.get("st") or {}).values())
+        return bool(st) and all(v == "unspec" for v in st)
+    return False
+
+
+def build_bodyfault(ctx, pool, thorough):
+    """Variant (d) (harness/queuecheck/bodyfault_test.go).  Queue.tla has ONE unclassified result of the body stage;
+    on the wire it can come about at several points, on either side.  Variant (b) realises it on the server's side
+    (hang-up after the final dot).  Here every plan TLC printed that contains that choice is a candidate, and the choice
+    is realised by one of BODY_FAULTS (top-level field bodyFault of the behaviour) in front of each of the three real
+    downstream clients.  HARNESS-ONLY data dimension: the model does not depend on where the transfer broke (to the
+    queue each of them is "unspec for every accepted recipient"), the predicates of QueueObs.tla evaluated by TLC on
+    the recorded trace decide.  Every (downstream, fault point) pair gets the same number of plans: half of them those
+    with the most at stake (two recipients accepted in the broken transfer, a report owed, a further attempt after
+    it), the rest a seeded sample."""
+    seen, cand = set(), {"smtp": [], "lmtp": [], "remote": []}
+    for b in pool:
+        c = b["cfg"]
+        if c.get("rw") or c.get("chain") or not any(body_unspec(h) for h in b["hist"]):
+            continue
+        k = json.dumps([c["partial"], c["bounce"], c["nullSender"], c["mt"], c["list"], b["hist"]], sort_keys=True)
+        if k in seen:
+            continue
+        seen.add(k)
+        sc = 0
+        for i, h in enumerate(b["hist"]):
+            if body_unspec(h):
+                sc += 2 if len(h.get("st") or {}) >= 2 else 0
+                sc += 1 if any(x["a"] == "TStart" for x in b["hist"][i:]) else 0
+        sc += 1 if (c["bounce"] and not c["nullSender"]) else 0
+        if not c["partial"]:
+            cand["smtp"].append((sc, k, b))
+        else:
+            cand["lmtp"].append((sc, k, b))
+            if all(h.get("res", "ok") == "ok" for h in b["hist"] if h["a"] == "TStart"):
+                cand["remote"].append((sc, k, b))
+    per = 60 if thorough else 3
+    out = []
+    for down in ("remote", "lmtp", "smtp"):
+        lst = sorted(cand[down], key=lambda x: (-x[0], x[1]))
+        if not lst:
+            continue
+        faults = [f for f in BODY_FAULTS if down == "remote" or not f.startswith("wr")]
+        n = per * len(faults)
+        top = lst[:n // 2]
+        rest = vlib.sample(ctx.rng, lst[len(top):], n - len(top))
+        ctx.rng.shuffle(top)
+        for k, (_, _, b) in enumerate(top + rest):
+            nb = json.loads(json.dumps({"cfg": b["cfg"], "hist": b["hist"]}))
+            for f in ("restartFirst", "caseVar", "uniLocal", "uniForm", "senderForm", "errshape", "front", "idn", "enh",
+                      "errtext", "midData", "sts"):
+                nb["cfg"].pop(f, None)
+            nb["cfg"]["utf8"] = False
+            nb["cfg"]["fwd"] = "remote" if down == "remote" else ""
+            nb["bodyFault"] = faults[k % len(faults)]
+            # harness-only, as in variant (b): every third one has internationalized recipients on a hop without SMTPUTF8
+            # (the client converts the addresses for the wire; the status keys must stay the queue's addresses)
+            nb["cfg"]["idn"] = (k // len(faults)) % 3 == 2
+            nb["id"] = 4000000 + len(out) + 1
+            out.append(nb)
+    ctx.cov["bodyfault_candidates"] = {d: len(v) for d, v in cand.items()}
+    return out
+
+
 def wk(n):
     """TLC workers: n, capped by VERIF_TLC_WORKERS when the machine is shared."""
     cap = int(os.environ.get("VERIF_TLC_WORKERS", "0") or 0)
@@ -443,8 +519,9 @@ def run_queue(ctx, replay, pid, mine, dims, opts):
     binary = ctx.build_harness("queuecheck")
     # a stored artefact of variant (b) is replayed by variant (b) exactly as stored (its cfg holds the dimensions)
     is_series = bool(replay) and "series" in behs[0]      # a stored artefact of variant (c): the whole series is re-run
-    replay_real = bool(replay) and not is_series and any(b.get("_stored_id", 0) >= 1000000 for b in behs)
-    events = [] if (replay_real or is_series) else ctx.run_shards(binary, behs)
+    is_bf = bool(replay) and "bodyFault" in behs[0]       # a stored artefact of variant (d)
+    replay_real = bool(replay) and not is_series and not is_bf and any(b.get("_stored_id", 0) >= 1000000 for b in behs)
+    events = [] if (replay_real or is_series or is_bf) else ctx.run_shards(binary, behs)
     by_id = {b["id"]: b for b in behs}
 
     # binding self-test: a corrupted and a truncated copy of an accepted trace
@@ -554,6 +631,27 @@ def run_queue(ctx, replay, pid, mine, dims, opts):
                                  "remote": sum(1 for x in sers if x["cfg"]["fwd"] == "remote"),
                                  "transactions_on_a_reused_connection":
                                      sum(1 for e in ev3 if e["e"] == "TStart" and e.get("txn", 1) > 1)}
+
+    # ---- variant (d): the point between 354 and the final dot at which the body stage fails unclassified -----------
+    if opts.get("bodyfault", False):
+        if replay:
+            bfs = [dict(json.loads(json.dumps(behs[0])), id=4000001)] if is_bf else []
+        else:
+            bfs = build_bodyfault(ctx, behs + opts.get("_allb", []), thorough)
+        if bfs:
+            ev4 = ctx.run_shards(binary, bfs, test="TestReplayBodyFault", shards=6, name="bodyfault")
+            stuck = [e for e in ev4 if e["e"] == "Stuck"]
+            if stuck:
+                raise vlib.Infra("variant (d): trace %s did not come to rest within the harness time-out "
+                                 "(not decided: %s)" % (stuck[0]["t"], stuck[0]["files"]))
+            for b in bfs:
+                by_id[b["id"]] = b
+            if replay:
+                events = []
+            events = events + ev4
+            ctx.log("variant (d): %d behaviours replayed" % len(bfs))
+            ctx.cov["body_fault_traces"] = {"traces": len(bfs), "by_fault": {
+                f: sum(1 for b in bfs if b["bodyFault"] == f) for f in BODY_FAULTS}}
 
     verdicts, by_t = ctx.validate("QueueTrace", None, events, keep=KEEP,
                                   cfg_text=TRACE_CFG % dict(devs=""))
